@@ -224,9 +224,10 @@ def run(res, proof):
     try:
         for k, (lab, txt, exp) in enumerate([c for c in cases if c[0] == 'document'][:40 if quick else 300]):
             res.evaluations += 1
-            p = os.path.join(tmpdir, 'd%d.ssw' % k)
+            p = os.path.join(tmpdir, 'same.ssw' if k % 3 else 'd%d.ssw' % k)      # rewritten in place, timestamp unchanged
             with open(p, 'w', newline='') as f:
                 f.write(txt)
+            os.utime(p, (1000000000, 1000000000))
             try:
                 if parse_seesaw_string(txt) != parse_seesaw_file(p):
                     res.violation('file-differs-from-string', {'text': txt}, 'differ', 'equal')
